@@ -4,7 +4,12 @@ package verifx
 
 import (
 	"fmt"
+	"os"
+	"os/exec"
 	"strings"
+	"time"
+
+	"github.com/aml-org/amf-custom-validator/pkg/config"
 )
 
 // C09 — a precompiled profile is equivalent to its source and is reusable.
@@ -17,6 +22,130 @@ type c09Case struct {
 	Prefix  []int `json:"prefix"`          // first documents of the history
 	Depth   int   `json:"depth"`           // total history length explored below this prefix
 	Exact   bool  `json:"exact,omitempty"` // run exactly the history in Prefix (size-threshold histories with the huge document)
+	Conf    bool  `json:"conf,omitempty"`  // history letters are (document, configuration) pairs: letter = 4*docIndex + confIndex over c09ConfDocs x c09Confs
+}
+
+// configuration histories: the call's clock and report configuration vary from step to step on ONE compiled query
+var c09ConfDocs = []int{0, 4, 3} // plain (violations), empty graph (conforming report), lexical (locations)
+
+type c09Conf struct {
+	name  string
+	clock FixedClock
+	rc    config.ReportConfiguration
+}
+
+func c09Confs() []c09Conf {
+	custom := config.ReportConfiguration{IncludeReportCreationTime: true, ReportSchemaIri: "http://a.ml/custom/report.yaml", LexicalSchemaIri: "http://a.ml/custom/lexical.yaml"}
+	noDate := DefaultReportConf()
+	noDate.IncludeReportCreationTime = false
+	return []c09Conf{
+		{"default", Epoch2000, DefaultReportConf()},
+		{"custom-schemas", Epoch2000, custom},
+		{"no-date", Epoch2000, noDate},
+		{"other-clock", FixedClock{time.Date(2021, 3, 4, 5, 6, 7, 0, time.UTC)}, DefaultReportConf()},
+	}
+}
+
+// C09ConfOnce: the report a FRESH process gives for ValidateWithConfiguration(profile p text, document, configuration)
+func C09ConfOnce(p, letter int) string {
+	cf := c09Confs()[letter%4]
+	r := ValidateConf(c09Profiles()[p], c09Docs()[c09ConfDocs[letter/4]], cf.clock, cf.rc, nil)
+	if r.Panic != nil {
+		return "PANIC " + r.Panic.Sig()
+	}
+	if r.Err != nil {
+		return "ERR"
+	}
+	return r.Report
+}
+
+var c09ConfFresh = map[[2]int]string{}
+
+func c09ConfRef(p, letter int) string {
+	k := [2]int{p, letter}
+	if v, ok := c09ConfFresh[k]; ok {
+		return v
+	}
+	exe, err := os.Executable()
+	if err != nil {
+		panic("harness: " + err.Error())
+	}
+	out, err := exec.Command(exe, "c09once", fmt.Sprint(p), fmt.Sprint(letter)).Output()
+	if err != nil {
+		panic("harness: fresh-process reference failed: " + err.Error())
+	}
+	c09ConfFresh[k] = string(out)
+	return string(out)
+}
+
+func c09ConfName(letter int) string {
+	return c09DocNames[c09ConfDocs[letter/4]] + "/" + c09Confs()[letter%4].name
+}
+
+func c09RunConf(c *Ctx, cs c09Case) {
+	prof := c09Profiles()[cs.Profile]
+	na := 4 * len(c09ConfDocs)
+	confs := c09Confs()
+	docs := c09Docs()
+	name := func(h []int) string {
+		var l []string
+		for _, x := range h {
+			l = append(l, c09ConfName(x))
+		}
+		return "[" + strings.Join(l, " → ") + "]"
+	}
+	var hist []int
+	runHistory := func(h []int) {
+		q, cr := Compile(prof)
+		if q == nil {
+			c.Violate("C09 profile does not compile: "+firstLine(cr.ErrString()), prof, nil)
+			return
+		}
+		for i, x := range h {
+			cf := confs[x%4]
+			r := ValidateCompiledConf(q, docs[c09ConfDocs[x/4]], cf.clock, cf.rc, nil)
+			c.Eval(1)
+			got := r.Report
+			if r.Panic != nil {
+				got = "PANIC " + r.Panic.Sig()
+			} else if r.Err != nil {
+				got = "ERR"
+			}
+			if ref := c09ConfRef(cs.Profile, x); got != ref {
+				sig := "C09 report differs from a fresh validation of the same document under the same configuration"
+				if i == 0 {
+					sig = "C09 precompiled report differs from validating with the profile text under the same configuration"
+				}
+				c.Violate(sig, fmt.Sprintf("profile %d history of (document/configuration) %s, step %d (earlier histories of this case ran before it in the same process)\n%s", cs.Profile, name(h[:i+1]), i+1, firstDiff(ref, got)), nil)
+				return
+			}
+			c.Outcome("conf " + c09ConfName(x))
+		}
+	}
+	if cs.Exact {
+		runHistory(cs.Prefix)
+		return
+	}
+	var rec func()
+	n := int64(0)
+	rec = func() {
+		if len(hist) == cs.Depth {
+			runHistory(hist)
+			n++
+			return
+		}
+		for x := 0; x < na; x++ {
+			hist = append(hist, x)
+			rec()
+			hist = hist[:len(hist)-1]
+		}
+	}
+	hist = append(hist, cs.Prefix...)
+	rec()
+	c.Count("states", n)
+	c.Count("transitions", n)
+	c.Count("traces_validated_against_impl", n)
+	c.Nontrivial(fmt.Sprintf("%d/conf/%v", cs.Profile, cs.Prefix))
 }
 
 const seedProfileInverse = `profile: seed inverse
@@ -70,8 +199,8 @@ func c09Docs() []string {
 
 func init() {
 	Register(Meta{
-		ID: "C09", Level: "model_checking",
-		Rule:        "states = (profile, history) for 5 profiles and every history of length <=K (3 quick, 4 thorough) over a 9-document alphabet (conforming/violating for the profile at hand, nested sub-results, lexical locations, empty graph, two documents that make the call fail, a 128-node document, an AMF-compact document); each maximal history is executed on a freshly compiled query and every step is compared byte-for-byte with (1) a fresh pkg.ValidateWithConfiguration of the profile text on that document and (2) the report the same compiled query gave for that document from the initial state; error-ness must agree. States are not merged (the compiled query exposes no state).",
+		ID: "C09", Level: "model_checking", HangIsViolation: true,
+		Rule:        "states = (profile, history) for 5 profiles and every history of length <=K (3 quick, 4 thorough) over a 9-document alphabet (conforming/violating for the profile at hand, nested sub-results, lexical locations, empty graph, two documents that make the call fail, a 128-node document, an AMF-compact document); each maximal history is executed on a freshly compiled query and every step is compared byte-for-byte with (1) a fresh pkg.ValidateWithConfiguration of the profile text on that document and (2) the report the same compiled query gave for that document from the initial state; error-ness must agree. Configuration histories: for 2 profiles, every sequence of 3 letters over {violating, conforming, lexical document} x {default, custom schema IRIs, no dateCreated, another clock} on one compiled query, each step compared with the report a FRESH PROCESS gives for the profile text, that document and that configuration. States are not merged (the compiled query exposes no state).",
 		Assumptions: []string{"fixed clock through the repository's ValidationConfiguration seam"},
 	}, c09Gen, c09Run)
 }
@@ -87,6 +216,12 @@ func c09Gen(tier string, emit func(c09Case)) {
 			for b := 0; b < nd; b++ {
 				emit(c09Case{Profile: p, Prefix: []int{a, b}, Depth: depth})
 			}
+		}
+	}
+	// configuration histories: every sequence of 3 (document, configuration) letters over 3 documents x 4 configurations
+	for _, p := range []int{0, 3} {
+		for a := 0; a < 12; a++ {
+			emit(c09Case{Profile: p, Prefix: []int{a}, Depth: 3, Conf: true})
 		}
 	}
 	// size threshold: a report above 1 MiB somewhere in the history (profiles whose report on it is that large)
@@ -131,6 +266,10 @@ func c09FreshRefs(c *Ctx, p int) []c09Ref {
 }
 
 func c09Run(c *Ctx, cs c09Case) {
+	if cs.Conf {
+		c09RunConf(c, cs)
+		return
+	}
 	prof := c09Profiles()[cs.Profile]
 	docs := c09Docs()
 	refs := c09FreshRefs(c, cs.Profile)
